@@ -23,6 +23,8 @@ def run(ctx):
     r171(ctx, api)
     r172(ctx, api)
     r173(ctx, api)
+    from . import callsigs as _cs
+    _cs.general_rules(ctx, 'R17', ['api.ParquetFile', 'api._pre_allocate'])
 
 
 def _callers(ctx, name):
